@@ -230,6 +230,38 @@ func TestC12Create(t *testing.T) {
 				}
 			}
 		}
+		// the deposit data carried inside the lock: per validator one datum per amount, for that
+		// validator's own key, the requested credentials, and a signature valid under that key
+		for j, v := range lock.Validators {
+			perAmount := map[eth2p0.Gwei]int{}
+			for k, pd := range v.PartialDepositData {
+				if !bytes.Equal(pd.PubKey, v.PubKey) {
+					rt.Fatalf("LOCK DEPOSIT: validator %d partial deposit %d is for key %x, the validator's key is %x", j, k, pd.PubKey[:6], v.PubKey[:6])
+				}
+				if !bytes.Equal(pd.WithdrawalCredentials, wantCreds) {
+					rt.Fatalf("LOCK DEPOSIT: validator %d partial deposit %d has withdrawal credentials %x, want %x", j, k, pd.WithdrawalCredentials, wantCreds)
+				}
+				var pk eth2p0.BLSPubKey
+				copy(pk[:], pd.PubKey)
+				sr := signingRoot(&eth2p0.DepositMessage{PublicKey: pk, WithdrawalCredentials: pd.WithdrawalCredentials, Amount: eth2p0.Gwei(pd.Amount)}, "DOMAIN_DEPOSIT", fv)
+				var sig tbls.Signature
+				copy(sig[:], pd.Signature)
+				if err := tbls.Verify(tbls.PublicKey(pk), sr[:], sig); err != nil {
+					rt.Fatalf("LOCK DEPOSIT: validator %d partial deposit %d (%d gwei): signature does not verify under the validator key: %v", j, k, pd.Amount, err)
+				}
+				perAmount[eth2p0.Gwei(pd.Amount)]++
+			}
+			if len(v.PartialDepositData) == 0 {
+				rt.Fatalf("LOCK DEPOSIT: validator %d carries no deposit data in the lock", j)
+			}
+			if amounts != nil {
+				for a := range wantAmounts {
+					if perAmount[a] != 1 {
+						rt.Fatalf("LOCK DEPOSIT: validator %d has %d deposit data for amount %d in the lock, want 1", j, perAmount[a], a)
+					}
+				}
+			}
+		}
 		for j, v := range lock.Validators {
 			reg := v.BuilderRegistration
 			if len(reg.Signature) == 0 {
